@@ -35,7 +35,7 @@ def build_scenario_parts(rng, nvars, opes=False, script=False, errors=False):
     slots = rng.sample(kinds, nvars) * 2
     rng.shuffle(slots)
     for i in range(nvars):
-        if len(pool) < 14:
+        if len(pool) < 22:
             pool = list(range(1, 39))
         ct = [slots[2 * i], slots[2 * i + 1]]
         if i == 0:
